@@ -28,7 +28,9 @@ import (
 	"path/filepath"
 	"sort"
 	"strconv"
+	"runtime"
 	"strings"
+	"sync"
 	"syscall"
 	"time"
 	"unicode"
@@ -48,6 +50,9 @@ const (
 	// a Compile that has not returned after wallFactor*timeLimit of wall-clock
 	// time (the machine is shared) is reported as not terminating
 	wallFactor = 6
+	// a Compile of an input of at most 64 KiB that makes the child's heap grow
+	// beyond this is reported (unbounded memory is unbounded time)
+	memLimit = 1 << 30
 )
 
 var kindNames = map[parser.Kind]string{
@@ -287,6 +292,8 @@ type compRes struct {
 	WallNs  int64  `json:"wall"` // wall-clock time of the first Compile
 	Same    bool   `json:"same"`
 	Timeout bool   `json:"timeout"`
+	Skipped bool   `json:"skipped"`
+	Mem     bool   `json:"mem"` // the child's heap grew beyond memLimit during this input
 	Crash   string `json:"crash"`
 }
 
@@ -363,11 +370,37 @@ func child() {
 	vlib.ReadJSON(os.Args[2], &inputs)
 	start, _ := strconv.Atoi(os.Args[3])
 	w := bufio.NewWriter(os.Stdout)
+	var mu sync.Mutex
+	cur := start
+	go func() { // memory watchdog
+		for {
+			time.Sleep(50 * time.Millisecond)
+			var ms runtime.MemStats
+			runtime.ReadMemStats(&ms)
+			if ms.HeapAlloc > memLimit {
+				mu.Lock()
+				b, _ := json.Marshal(compRes{I: cur, Mem: true})
+				w.Write(b)
+				w.WriteByte('\n')
+				w.Flush()
+				os.Exit(4)
+			}
+		}
+	}()
 	for i := start; i < len(inputs); i++ {
+		mu.Lock()
+		cur = i
+		mu.Unlock()
 		src := vlib.UnQ(inputs[i])
 		lim := timeLimit
 		if len(src) > sizeLimit {
 			lim = 120 * time.Second
+		}
+		// wall-clock patience: 30 s, but 10 s for inputs below 4 KiB (a few
+		// milliseconds of work even on a heavily loaded machine)
+		wall := wallFactor * lim
+		if len(src) < 4096 {
+			wall = 2 * lim
 		}
 		type one struct {
 			r compRes
@@ -382,38 +415,46 @@ func child() {
 			select {
 			case o := <-done:
 				return o, true
-			case <-time.After(wallFactor * lim):
+			case <-time.After(wall):
 				return one{}, false
 			}
 		}
 		var r compRes
 		if o1, ok := run(); !ok {
-			r = compRes{Timeout: true, Ns: int64(wallFactor * lim), WallNs: int64(wallFactor * lim)}
+			r = compRes{Timeout: true, Ns: int64(wall), WallNs: int64(wall)}
 		} else if o1.r.Panic != "" {
 			r = o1.r
 		} else if o2, ok := run(); !ok {
-			r = compRes{Timeout: true, Ns: int64(wallFactor * lim), WallNs: int64(wallFactor * lim)}
+			r = compRes{Timeout: true, Ns: int64(wall), WallNs: int64(wall)}
 		} else {
 			r = o1.r
 			r.Same = o1.d == o2.d && o1.r.Obj == o2.r.Obj && o1.r.NErr == o2.r.NErr && o2.r.Panic == ""
 		}
 		r.I = i
 		b, _ := json.Marshal(r)
+		mu.Lock()
 		w.Write(b)
 		w.WriteByte('\n')
 		w.Flush()
+		mu.Unlock()
 		if r.Timeout {
 			os.Exit(3)
 		}
 	}
 }
 
-// compileAll runs every input through child processes and returns one result per input.
-func compileAll(tmp string, inputs []string) []compRes {
+// compileAll runs every input through child processes and returns one result per
+// input.  After maxFails timeouts/crashes/memory overruns on inputs with the same
+// label the remaining inputs of that label are skipped (replaced by the empty
+// program), so that a tree with a hang does not cost 30 s per input.
+const maxFails = 4
+
+func compileAll(tmp string, inputs []string, labels []string) []compRes {
 	qs := vlib.Qs(inputs)
 	f := filepath.Join(tmp, "inputs.json")
 	vlib.WriteJSON(f, qs)
 	res := make([]compRes, len(inputs))
+	fails := map[string]int{}
 	exe, _ := os.Executable()
 	for start := 0; start < len(inputs); {
 		cmd := exec.Command(exe, "child", f, strconv.Itoa(start))
@@ -430,12 +471,15 @@ func compileAll(tmp string, inputs []string) []compRes {
 		for sc.Scan() {
 			var r compRes
 			if json.Unmarshal(sc.Bytes(), &r) == nil && r.I == next {
+				if res[next].Skipped {
+					r = compRes{I: next, Skipped: true, Same: true}
+				}
 				res[next] = r
 				next++
 			}
 		}
 		err := cmd.Wait()
-		if next < len(inputs) && (next == start || err != nil) && !(next > start && res[next-1].Timeout) {
+		if next < len(inputs) && (next == start || err != nil) && !(next > start && (res[next-1].Timeout || res[next-1].Mem)) {
 			// the child died on input `next` without reporting
 			e := stderr.String()
 			if len(e) > 400 {
@@ -443,6 +487,24 @@ func compileAll(tmp string, inputs []string) []compRes {
 			}
 			res[next] = compRes{I: next, Crash: fmt.Sprintf("child exited (%v): %s", err, e)}
 			next++
+		}
+		if next > start && next <= len(inputs) {
+			if last := res[next-1]; last.Timeout || last.Mem || last.Crash != "" {
+				lb := ""
+				if next-1 < len(labels) {
+					lb = labels[next-1]
+				}
+				fails[lb]++
+				if lb != "" && fails[lb] == maxFails {
+					for j := next; j < len(inputs); j++ {
+						if j < len(labels) && labels[j] == lb {
+							qs[j] = vlib.Q("")
+							res[j].Skipped = true
+						}
+					}
+					vlib.WriteJSON(f, qs)
+				}
+			}
 		}
 		start = next
 	}
@@ -456,11 +518,16 @@ func judge(out *vlib.Out, what string, src string, r compRes) {
 	if strings.HasPrefix(what, "nest/") {
 		timeClass = "compile-time-superlinear-nesting"
 	}
+	if r.Skipped {
+		return
+	}
 	switch {
 	case r.Crash != "":
 		out.Violate("compile-crash", fmt.Sprintf("%s (%d bytes): the process died: %s", what, len(src), r.Crash), cs)
+	case r.Mem:
+		out.Violate("compile-memory-limit", fmt.Sprintf("%s (%d bytes): Compile made the heap grow beyond %d MiB", what, len(src), memLimit>>20), cs)
 	case r.Timeout:
-		out.Violate(timeClass, fmt.Sprintf("%s (%d bytes): Compile did not return within %v", what, len(src), wallFactor*timeLimit), cs)
+		out.Violate(timeClass, fmt.Sprintf("%s (%d bytes): Compile did not return within %v of wall-clock time", what, len(src), time.Duration(r.WallNs)), cs)
 	case r.Panic != "":
 		out.Violate("compile-panic", fmt.Sprintf("%s (%d bytes): panic: %s", what, len(src), r.Panic), cs)
 	case r.Obj && !r.ErrNil:
@@ -472,7 +539,7 @@ func judge(out *vlib.Out, what string, src string, r compRes) {
 	case !r.Same:
 		out.Violate("compile-nondeterministic", fmt.Sprintf("%s: compiling twice gave different results", what), cs)
 	}
-	if len(src) <= sizeLimit && !r.Timeout && r.Crash == "" && time.Duration(r.Ns) > timeLimit {
+	if len(src) <= sizeLimit && !r.Timeout && !r.Mem && r.Crash == "" && time.Duration(r.Ns) > timeLimit {
 		out.Violate(timeClass, fmt.Sprintf("%s (%d bytes): Compile used %v of CPU time (> %v)", what, len(src), time.Duration(r.Ns), timeLimit), cs)
 	}
 }
@@ -568,6 +635,10 @@ func genProgram(rng *vlib.Rand) string {
 	return b.String()
 }
 
+// multi-byte runes the lexer classifies: digits (Arabic-Indic, fullwidth,
+// Devanagari), letters, spaces, and U+2424
+var mutRunes = []string{"٣", "１", "१", "é", "変", "\u00a0", "\u2028", "␤", "\ufffd"}
+
 var mutBytes = []byte{'"', '/', '\\', '\n', '{', '}', '(', ')', '$', '@', '#', 0, 0xff, 0xc3, 0xe2, '.', 'e', '-', '!', '~', ' '}
 
 func mutate(rng *vlib.Rand, s string) string {
@@ -579,7 +650,15 @@ func mutate(rng *vlib.Rand, s string) string {
 			continue
 		}
 		p := rng.Intn(len(b))
-		switch rng.Intn(5) {
+		switch rng.Intn(7) {
+		case 5: // a classified non-ASCII rune inside the text
+			b = append(b[:p], append([]byte(vlib.Pick(rng, mutRunes)), b[p:]...)...)
+		case 6: // ... at the start of a token / statement
+			q := p
+			for q > 0 && b[q-1] != '\n' && b[q-1] != ' ' {
+				q--
+			}
+			b = append(b[:q], append([]byte(vlib.Pick(rng, mutRunes)), b[q:]...)...)
 		case 0:
 			b[p] = vlib.Pick(rng, mutBytes)
 		case 1:
@@ -621,6 +700,214 @@ func examples() []string {
 	for _, f := range fs {
 		if b, err := os.ReadFile(f); err == nil {
 			r = append(r, string(b))
+		}
+	}
+	return r
+}
+
+// ---- systematic corpus: operators over literals, builtins over every kind of
+// argument, const fragment chains ----
+
+var allBinops = []string{"+", "-", "*", "/", "%", "**", "<<", ">>", "&", "|", "^", "<", ">", "<=", ">=", "==", "!=", "&&", "||", "=~", "!~"}
+var litLeft = []string{"1", "-1", "0", "7", "2.5", "-0.5", "\"s\"", "9223372036854775807"}
+var litRight = []string{"-1", "0", "1", "2", "63", "64", "65", "-64", "9223372036854775807", "-9223372036854775808", "2147483648", "0.0", "-2.5", "1e308", "1e-320", "\"s\"", "/r/"}
+
+func literalOpPrograms(thorough bool) []string {
+	var r []string
+	left, right := litLeft, litRight
+	if !thorough {
+		left = []string{"1", "-1", "2.5", "\"s\""}
+		right = []string{"-1", "0", "1", "64", "9223372036854775807", "-9223372036854775808", "0.0", "1e308", "\"s\"", "/r/"}
+	}
+	for _, op := range allBinops {
+		for _, a := range left {
+			for _, b := range right {
+				e := a + " " + op + " " + b
+				r = append(r,
+					"gauge g\n/x/ {\n  g = "+e+"\n}\n",
+					"counter c\n/x/ {\n  "+e+" {\n    c++\n  }\n}\n")
+			}
+		}
+		// folded sub-expressions on either side, and unary ~
+		r = append(r,
+			"gauge g\n/x/ {\n  g = (1 "+op+" 2) "+op+" -1\n}\n",
+			"gauge g\n/x/ {\n  g = 3 "+op+" (1 - 2)\n}\n",
+			"gauge g\n/x/ {\n  g = ~1 "+op+" ~-1\n}\n",
+			"gauge g\n/(\\d+)/ {\n  g = $1 "+op+" -1\n  g = -1 "+op+" $1\n}\n")
+	}
+	return r
+}
+
+type builtinSig struct {
+	name  string
+	arity []int
+}
+
+var builtinSigs = []builtinSig{
+	{"subst", []int{3}}, {"strptime", []int{2}}, {"strtol", []int{2}}, {"tolower", []int{1}}, {"len", []int{1}},
+	{"settime", []int{1}}, {"int", []int{1}}, {"float", []int{1}}, {"string", []int{1}}, {"bool", []int{1}},
+	{"timestamp", []int{0, 1}}, {"getfilename", []int{0, 1}},
+}
+
+// one of every kind of argument: literals, capture references, metrics, a
+// const pattern fragment, pattern literals and every way of concatenating them
+var argKinds = []string{"\"s\"", "$1", "$n", "X", "/r(e)/", "\"a\" + X", "X + \"a\"", "/a/ + X", "X + X", "$1 + \"a\"", "$1 + X", "1", "2.5", "c", "t", "\"2006\"", "(X)", "len(X)"}
+
+func builtinPrograms(thorough bool) []string {
+	var r []string
+	third := []string{"$1", "\"s\"", "X", "\"a\" + X", "/r/", "1"}
+	if !thorough {
+		third = []string{"$1", "\"a\" + X"}
+	}
+	ctxs := []string{"  t = %s\n", "  %s == \"x\" {\n    c++\n  }\n", "  %s {\n    c++\n  }\n", "  c += %s\n", "  %s\n"}
+	k := 0
+	emit := func(call string) {
+		body := fmt.Sprintf(ctxs[k%len(ctxs)], call)
+		k++
+		r = append(r, "counter c\ntext t\nconst X /b(c)/\n/(\\w+) (?P<n>\\d+)/ {\n"+body+"  c++\n  t = $1\n}\n")
+	}
+	for _, b := range builtinSigs {
+		for _, ar := range b.arity {
+			switch ar {
+			case 0:
+				emit(b.name + "()")
+			case 1:
+				for _, a := range argKinds {
+					emit(b.name + "(" + a + ")")
+				}
+			case 2:
+				for _, a := range argKinds {
+					for _, c := range argKinds {
+						emit(b.name + "(" + a + ", " + c + ")")
+					}
+				}
+			case 3:
+				for _, a := range argKinds {
+					for _, c := range argKinds {
+						for _, d := range third {
+							emit(b.name + "(" + a + ", " + c + ", " + d + ")")
+						}
+					}
+				}
+			}
+		}
+	}
+	// the same argument kinds as conditions, match operands and index keys
+	for _, a := range argKinds {
+		for _, c := range argKinds {
+			r = append(r,
+				"counter c by k\ntext t\nconst X /b(c)/\n/(\\w+) (?P<n>\\d+)/ {\n  "+a+" =~ "+c+" {\n    c["+a+"]++\n  }\n  t = $1\n}\n",
+				"counter c by k\ntext t\nconst X /b(c)/\n/(\\w+) (?P<n>\\d+)/ {\n  "+a+" && "+c+" {\n    c[$1]++\n  }\n  t = "+c+"\n}\n")
+		}
+		r = append(r, "counter c\ntext t\nconst X /b(c)/\n"+a+" {\n  c++\n}\n/(\\w+) (?P<n>\\d+)/ {\n  t = $1\n}\n",
+			"counter c\ntext t\nconst X /b(c)/\nconst Y "+a+"\n/(\\w+) (?P<n>\\d+)/ + Y {\n  t = $1\n  c++\n}\n")
+	}
+	return r
+}
+
+// wild programs: every kind of operand under every operator in every statement
+// position, with no regard for types (most are rejected; none may panic)
+var wildAtoms = []string{"1", "-1", "0", "2.5", "1e308", "\"s\"", "\"\"", "$1", "$n", "$0", "$x", "X", "Y", "/r(e)/", "/(?P<n>x)/", "/z+/",
+	"c", "g", "g[$1]", "g[$1][$1]", "g[1]", "t", "h", "h[$1]", "tm", "len($1)", "timestamp()", "getfilename()", "strtol($1, 10)",
+	"tolower($1)", "int($1)", "float($n)", "string(1)", "bool(1)", "subst(\"a\", \"b\", $1)", "subst(X, \"b\", $1)", "strptime($1, \"2006\")",
+	"settime(1)", "9223372036854775807", "-9223372036854775808", "1h"}
+
+func wildExpr(rng *vlib.Rand, d int) string {
+	if d == 0 || rng.Chance(35) {
+		return vlib.Pick(rng, wildAtoms)
+	}
+	switch rng.Intn(8) {
+	case 0:
+		return "(" + wildExpr(rng, d-1) + ")"
+	case 1:
+		return "~" + wildExpr(rng, d-1)
+	case 2:
+		return wildExpr(rng, d-1) + vlib.Pick(rng, []string{"++", "--"})
+	default:
+		return wildExpr(rng, d-1) + " " + vlib.Pick(rng, allBinops) + " " + wildExpr(rng, d-1)
+	}
+}
+
+func wildStmts(rng *vlib.Rand, b *strings.Builder, ind string, d int) {
+	n := 1 + rng.Intn(3)
+	for i := 0; i < n; i++ {
+		switch k := rng.Intn(12); {
+		case k < 3:
+			fmt.Fprintf(b, "%s%s %s %s\n", ind, wildExpr(rng, 1), vlib.Pick(rng, []string{"=", "+="}), wildExpr(rng, 2))
+		case k == 3:
+			fmt.Fprintf(b, "%s%s\n", ind, wildExpr(rng, 2))
+		case k == 4:
+			fmt.Fprintf(b, "%sdel %s%s\n", ind, wildExpr(rng, 1), vlib.Pick(rng, []string{"", " after 1h", " after 0s", " after -1s", " after 1d"}))
+		case k == 5:
+			fmt.Fprintf(b, "%s%s\n", ind, vlib.Pick(rng, []string{"next", "stop", "c++", "g[$1]++", "t = $1"}))
+		case k < 9 && d > 0:
+			fmt.Fprintf(b, "%s%s {\n", ind, wildExpr(rng, 2))
+			wildStmts(rng, b, ind+"  ", d-1)
+			if rng.Chance(30) {
+				fmt.Fprintf(b, "%s} else {\n", ind)
+				wildStmts(rng, b, ind+"  ", d-1)
+			}
+			fmt.Fprintf(b, "%s}\n", ind)
+		case k == 9 && d > 0:
+			fmt.Fprintf(b, "%sotherwise {\n", ind)
+			wildStmts(rng, b, ind+"  ", d-1)
+			fmt.Fprintf(b, "%s}\n", ind)
+		case k == 10 && d > 0:
+			fmt.Fprintf(b, "%s@%s {\n", ind, vlib.Pick(rng, []string{"d", "d", "d"}))
+			wildStmts(rng, b, ind+"  ", d-1)
+			fmt.Fprintf(b, "%s}\n", ind)
+		default:
+			b.WriteString(ind + "c++\n")
+		}
+	}
+}
+
+// wildProgram: a well-typed frame (every declaration used, so that the checker
+// lets the program through to the optimiser and the code generator) around one
+// or two wild statements
+func wildProgram(rng *vlib.Rand) string {
+	var b strings.Builder
+	b.WriteString("counter c\ngauge g by k\ntext t\ntimer tm\nhistogram h buckets 0, 1, 2 by k\n")
+	b.WriteString(vlib.Pick(rng, []string{"const X /b(c)/\n", "const X /b/ + /c/\n", "const X /(?P<q>b)/\n"}))
+	b.WriteString(vlib.Pick(rng, []string{"const Y X + X\n", "const Y /y/ + X\n", "const Y /y/\n"}))
+	b.WriteString("def d {\n  /^y/ {\n    next\n  }\n}\n")
+	b.WriteString("/^(\\w+) (?P<n>\\d+) (?P<x>\\d+\\.\\d+)/ {\n")
+	safe := []string{"c++", "g[$1] = $n", "t = $1", "tm = $n", "h[$1] = $x", "c += $n", "g[$1]++"}
+	k := rng.Intn(3)
+	for i := 0; i < k; i++ {
+		b.WriteString("  " + vlib.Pick(rng, safe) + "\n")
+	}
+	wildStmts(rng, &b, "  ", 1+rng.Intn(2))
+	b.WriteString("}\n")
+	// use everything
+	b.WriteString("@d {\n  /^use (\\w+) (?P<n>\\d+) (?P<x>\\d+\\.\\d+)/ + X + Y {\n    c++\n    g[$1] = $n\n    t = $1\n    tm = $n\n    h[$1] = $x\n  }\n}\n")
+	return b.String()
+}
+
+// const fragments built from earlier fragments: fan k, depth n
+func constChain(n, fan int, use string) string {
+	var b strings.Builder
+	b.WriteString("counter c\nconst A0 /x/\n")
+	for i := 1; i <= n; i++ {
+		fmt.Fprintf(&b, "const A%d /x/", i)
+		for j := 0; j < fan; j++ {
+			fmt.Fprintf(&b, " + A%d", i-1)
+		}
+		b.WriteByte('\n')
+	}
+	fmt.Fprintf(&b, use, n)
+	return b.String()
+}
+
+func constChainPrograms(thorough bool) (r []string) {
+	depths := []int{1, 5, 9, 10, 11, 16, 24, 40, 200, 2000}
+	for _, n := range depths {
+		for _, fan := range []int{1, 2, 3} {
+			r = append(r,
+				constChain(n, fan, "/y/ + A%d {\n  c++\n}\n"),
+				constChain(n, fan, "/(\\w+)/ {\n  $1 =~ A%d {\n    c++\n  }\n}\n"),
+				constChain(n, fan, "/(\\w+)/ {\n  subst(A%d, \"b\", $1) == \"x\" {\n    c++\n  }\n}\n"),
+				constChain(n, fan, "/y/ {\n  c++\n}\n# A%d unused\n"))
 		}
 	}
 	return r
@@ -730,7 +1017,11 @@ func main() {
 	for i, l := range lins {
 		srcs[i] = l.src
 	}
-	cres := compileAll(tmp, srcs)
+	lbls := make([]string, len(lins))
+	for i, l := range lins {
+		lbls[i] = l.what
+	}
+	cres := compileAll(tmp, srcs, lbls)
 	policies := []string{"parser", "random", "never", "always"}
 	for i, l := range lins {
 		judge(out, l.what, l.src, cres[i])
@@ -809,6 +1100,22 @@ func main() {
 		cin{"counter c\n" + strings.Repeat("c++\n", 16000), "statements-16000"},
 		cin{"", "empty"}, cin{"\n", "newline"}, cin{"␤", "symnl"}, cin{"\x00", "nul"},
 	)
+	for _, p := range literalOpPrograms(a.Thorough()) {
+		cins = append(cins, cin{p, "literal-operands"})
+	}
+	for _, p := range builtinPrograms(a.Thorough()) {
+		cins = append(cins, cin{p, "builtin-arguments"})
+	}
+	nw := 700
+	if a.Thorough() {
+		nw = 12000
+	}
+	for i := 0; i < nw; i++ {
+		cins = append(cins, cin{wildProgram(rng), "wild-program"})
+	}
+	for _, p := range constChainPrograms(a.Thorough()) {
+		cins = append(cins, cin{p, "const-chain"})
+	}
 	// nesting sweeps around the recursion limit and far beyond
 	shapes := []string{"not", "paren", "plus", "block", "else", "postfix", "concat", "index", "args", "stmts"}
 	sizes := []int{1, 10, 50, 99, 100, 101, 1000, 2000, 4000, 8000, 16000}
@@ -835,7 +1142,11 @@ func main() {
 	for i, c := range cins {
 		srcs[i] = c.src
 	}
-	cres2 := compileAll(tmp, srcs)
+	lbls = make([]string, len(cins))
+	for i, c := range cins {
+		lbls[i] = strings.Join(strings.SplitN(c.what, "/", 3)[:min(2, len(strings.SplitN(c.what, "/", 3)))], "/")
+	}
+	cres2 := compileAll(tmp, srcs, lbls)
 	accepted := 0
 	var worst time.Duration
 	worstWhat := ""
@@ -873,8 +1184,15 @@ func main() {
 		}
 		e := math.Round(slope(ns, ts)*100) / 100
 		exps[sh] = e
-		// well above quadratic, and only when the times are large enough to mean something
-		if e > 2.5 && len(ts) > 0 && ts[len(ts)-1] > 500 {
+		// well above quadratic over the whole range and over its upper half, and
+		// only when the times are large enough to mean something (single
+		// measurements on a shared machine are noisy; the absolute limit of 5 s
+		// of CPU time per input is the sharp criterion)
+		e2 := 0.0
+		if k := len(ts); k >= 3 {
+			e2 = math.Log(ts[k-1]/ts[k-3]) / math.Log(float64(ns[k-1])/float64(ns[k-3]))
+		}
+		if e > 2.5 && e2 > 2.2 && ts[len(ts)-1] > 1500 {
 			out.Violate("compile-time-superlinear-nesting",
 				fmt.Sprintf("nesting shape %s: compile time grows with exponent %.2f (n=%v ms=%v)", sh, e, ns, ts),
 				map[string]any{"kind": "nest", "shape": sh, "n": ns[len(ns)-1]})
@@ -885,7 +1203,7 @@ func main() {
 	out.Extra["compile_inputs"] = len(lins) + len(cins)
 	out.Extra["compile_inputs_accepted"] = accepted
 	out.Extra["slowest_input_le_64KiB"] = fmt.Sprintf("%s: %v", worstWhat, worst)
-	out.Extra["time_limit"] = "5s of CPU time per Compile for every input of at most 64 KiB (killed and reported after 30s wall clock); each input compiled twice in a child process"
+	out.Extra["time_limit"] = "5s of CPU time per Compile for every input of at most 64 KiB (killed and reported after 30 s of wall clock, 10 s for inputs below 4 KiB); each input compiled twice in a child process"
 
 	out.Flush("lexer cases: example programs, generated programs, byte-mutated programs, token soup (incl. invalid UTF-8, U+2424, unterminated strings/regexes, control characters), random bytes, each lexed by the real Lexer under a recorded InRegex policy; non-trivial when the token list has >= 4 tokens of >= 3 kinds. Every input and the large/nested inputs in extra.compile_inputs also went through compiler.Compile twice under the result-shape, panic, time and determinism oracle", false)
 }
@@ -918,7 +1236,7 @@ func replay(path string) {
 		fmt.Println("holds")
 		return
 	}
-	r := compileAll(tmp, []string{src})[0]
+	r := compileAll(tmp, []string{src}, nil)[0]
 	b, _ := json.Marshal(r)
 	fmt.Printf("%d bytes: %s\n", len(src), b)
 	o := vlib.NewOut(vlib.Args{}, "", "", 1)
